@@ -426,7 +426,12 @@ def build(P: Dict[str, Any], *, is_async: bool = False, mc: int = 1, decorate_at
         if decorate_attrs:
             kw["priority"] = spec.get("prio", 0)
             kw["is_sequential"] = bool(spec.get("seq"))
-        xns[fn] = tawazi.xn(make_body(fn, spec), **kw)
+        f_body: Any = make_body(fn, spec)
+        if spec.get("partial"):
+            import functools
+
+            f_body = functools.partial(f_body)  # a documented kind of node function: named after the wrapped function
+        xns[fn] = tawazi.xn(f_body, **kw)
 
     logic = {"and_": tawazi.and_, "or_": tawazi.or_, "not_": tawazi.not_}
 
